@@ -1,7 +1,7 @@
 SPECIFICATION MCSpec
 CONSTANTS Proc <- MCProc
           WakeOnPut = TRUE
-          NP = 2
+          NP = 1
           NE = 2
           NC = 2
           NOps = 1
@@ -11,7 +11,7 @@ CONSTANTS Proc <- MCProc
           LaneSet = {1, 2}
           MaxClock = 2
           TagSet = {0, 1}
-          GetKinds = {"GetNoWait", "GetTimeout"}
+          GetKinds = {"Get", "GetNoWait", "GetTimeout"}
 INVARIANTS SwallowOnlyNil TypeOK Fifo Conservation RefusalInert PerProducerOrder WaitingImpliesEmpty
 PROPERTIES AllStepProps
 CHECK_DEADLOCK FALSE
